@@ -176,8 +176,8 @@ theorem isType_sound (inp : CInput) (fuel : Nat) (tc : List (List CTag))
 /-- **Completeness for the tag's own type**: if the type entry of a tag is assignable to a pattern
 that some `IsType` instruction uses, the runtime test accepts the tag. (For a static union type `S`
 whose variant is the tag's type this needs "`S ≤ t` implies `variant ≤ t`" as a fact about the
-checker's verdicts — `IsTypeCompleteForVariantStatement` below; the harness checks it on every
-generated input.) -/
+checker's verdicts: `isType_complete_for_variant` below proves it for first-order types; for all closed
+types it is `IsTypeCompleteForVariantStatement`, checked by the harness on every generated input.) -/
 theorem isType_complete (inp : CInput) (fuel : Nat) (tc : List (List CTag))
     (h : typeCompat inp fuel = some tc) (p id : Nat) (c : CTag)
     (hplt : p < inp.table.types.length) (hused : p ∈ inp.functions.flatMap (·.isTypes))
@@ -189,9 +189,57 @@ theorem isType_complete (inp : CInput) (fuel : Nat) (tc : List (List CTag))
   simp only [isType, hget]
   simpa using this
 
+theorem filterTags_total {f : CTag → Option Bool} :
+    ∀ {l r : List CTag}, filterTags f l = some r → ∀ c ∈ l, ∃ b, f c = some b := by
+  intro l
+  induction l with
+  | nil => intro r _ c hc; simp at hc
+  | cons x xs ih =>
+    intro r h c hc
+    unfold filterTags at h
+    cases hx : f x with
+    | none => simp [hx] at h
+    | some b =>
+      cases hr : filterTags f xs with
+      | none => cases b <;> simp [hx, hr] at h
+      | some r' =>
+        rcases List.mem_cons.mp hc with rfl | hc
+        · exact ⟨b, hx⟩
+        · exact ih hr c hc
+
+/-- **Completeness for a variant of a static union type** (first-order types; partial types of the
+table do not repeat a field name): if a union `s` is assignable to a pattern `p` that some `IsType`
+instruction uses, the runtime test accepts every tag whose type entry is a variant of `s` — "never
+reject a known member". The step "`s ≤ p` implies `variant ≤ p`" is a fact about the checker's verdicts
+(`C09.compat_variant_fo`: on first-order types the verdict does not depend on the assumptions and
+stacks a check starts from). -/
+theorem isType_complete_for_variant (inp : CInput) (fuel : Nat) (tc : List (List CTag)) (p s id : Nat)
+    (c : CTag) (vs : List Nat) (hd : PartsDistinct inp.table) (hs : FO inp.table s) (hp : FO inp.table p)
+    (h : typeCompat inp fuel = some tc) (hused : p ∈ inp.functions.flatMap (·.isTypes))
+    (hc : c ∈ allTags inp) (hty : tagType inp (TypeIndex.build inp.table) c = some id)
+    (hsty : inp.table.types[s]? = some (.union vs)) (hid : id ∈ vs)
+    (hcompat : isCompatible inp.table fuel s p = some true) : isType tc p c = true := by
+  have hplt : p < inp.table.types.length := by
+    obtain ⟨ty, hty', _⟩ := hp.unfold
+    exact (List.getElem?_eq_some_iff.mp hty').1
+  obtain ⟨set, hset, hget⟩ := typeCompat_entry inp fuel tc h p hplt hused
+  -- the table computation answered for this tag, with the table's fuel …
+  obtain ⟨b, hb⟩ := filterTags_total hset c hc
+  rw [tagAccepts_of_type inp _ fuel p id c hty] at hb
+  -- … and with enough fuel the answer is `true`
+  have hbig := C09.compat_variant_fo inp.table hd s p id fuel
+    (max fuel (rk inp.table id + rk inp.table p + 1)) vs hs hp hsty hid hcompat (by omega)
+  have hb' : isCompatible inp.table (max fuel (rk inp.table id + rk inp.table p + 1)) id p = some b :=
+    C09.compat_fuel_irrelevant inp.table (Nat.le_max_left fuel _) id p hb
+  rw [hbig] at hb'
+  cases hb'
+  exact isType_complete inp fuel tc h p id c hplt hused hc hty hb
+
+/-- the statement over all closed types (recursive, callable) stays a statement; the harness checks it on
+every generated input -/
 def IsTypeCompleteForVariantStatement : Prop :=
   ∀ (inp : CInput) (fuel : Nat) (tc : List (List CTag)) (p s id : Nat) (c : CTag) (vs : List Nat),
-    Ordered inp.table → FO inp.table s → FO inp.table p →
+    Ordered inp.table → Closed inp.table s → Closed inp.table p →
     typeCompat inp fuel = some tc → p ∈ inp.functions.flatMap (·.isTypes) → c ∈ allTags inp →
     tagType inp (TypeIndex.build inp.table) c = some id →
     inp.table.types[s]? = some (.union vs) → id ∈ vs →
